@@ -139,6 +139,9 @@ def alphabet(tree, level="full"):
         ops.append(("unslice_rand_", 1))
         ops.append(("unslice_all_",))
         ops.append(("unslice_all",))
+        ops.append(("unslice_rand", 0))
+    if unsliced:
+        ops.append(("project", unsliced[0], 0))  # non-inplace projection
     ops += [
         ("slice_", "slices2", 0),
         ("slice_", "slices2", 1),
@@ -167,6 +170,12 @@ def alphabet(tree, level="full"):
         ("sort_", "root"),
         ("sort_", "leaves"),
         ("reset_inds",),
+        # copying variants of the composite transformations
+        ("forest", 0),
+        ("temper", 0),
+        ("slice_reconf", "half"),
+        ("reconf_obj_", 3, "write"),
+        ("reconf_obj_", 3, "combo"),
     ]
     if level == "mini":
         # ~14 ops: one representative per mutating family, for depth 4
@@ -249,6 +258,23 @@ def apply_op(obj, op):
         obj.push(t.restore_ind(op[1]))
     elif name == "unslice_rand_":
         t.unslice_rand_(seed=op[1])
+    elif name == "unslice_rand":
+        obj.push(t.unslice_rand(seed=op[1]))
+    elif name == "project":
+        obj.push(t.remove_ind(op[1], project=op[2]))
+    elif name == "reconf_obj_":
+        t.subtree_reconfigure_(subtree_size=op[1], minimize=op[2], maxiter=4)
+    elif name == "forest":
+        obj.push(t.subtree_reconfigure_forest(
+            num_trees=2, num_restarts=1, subtree_maxiter=2, subtree_size=3,
+            parallel=False, seed=op[1]))
+    elif name == "temper":
+        obj.push(t.parallel_temper(num_trees=2, tsteps=1, numiter=2,
+                                   parallel=False, seed=op[1]))
+    elif name == "slice_reconf":
+        obj.push(t.slice_and_reconfigure(
+            _target(t, op[1]), max_repeats=4,
+            reconf_opts={"subtree_size": 3, "maxiter": 2}))
     elif name == "unslice_all_":
         t.unslice_all_()
     elif name == "unslice_all":
